@@ -1241,6 +1241,9 @@ func (e *specEnv) evalCall(n *ast.CallExpr) (sval, error) {
 		if err != nil {
 			return sval{}, err
 		}
+		if v.v.T.Sort == SInt {
+			return sval{v: scalar(v.v.T)}, nil // already a pointer
+		}
 		return sval{v: scalar(mk(SInt, "iptr", v.v.T))}, nil
 	case "fn": // fn(v) == "name": identity of a function value
 		v, err := arg(0)
